@@ -157,7 +157,10 @@ theorem step_yield_phase (E : Env S) (g g' : Gen S) (p : Prog) (h : step E g = s
   · simp at h
   · dsimp only at h
     split at h
-    · split at h <;> simp at h
+    · split at h
+      · simp at h
+      · simp at h
+      · split at h <;> simp at h
     · simp at h
   · simp at h
   · simp only at h
